@@ -2,7 +2,7 @@
 # tools/try_seed.sh <seed-dir> <name> <check>...   — confirm a seeded change in a scratch worktree and run checks against it
 # 1. tests pass with the patch; demo fails with it and passes without it   2. each listed check is run with BOBOCEP_REPO=<scratch>
 SRC=$1; NAME=$2; shift 2
-W=/var/tmp/wt-seedtest
+W=${SEED_WT:-/var/tmp/wt-seedtest}
 [ -d $W ] || git -C /repo worktree add --detach $W main -q
 cd $W && git checkout -q --detach main && git reset -q --hard && git clean -qfd
 DEMO=$(ls $SRC/demo.py $SRC/test_demo.py 2>/dev/null | head -1)
